@@ -113,6 +113,9 @@ type Enc struct {
 	axioms       []string
 	axiomNames   []string
 	preludeText  string
+	constErrs    []string
+	assumedGlobals []string
+	nquant         int
 }
 
 func (e *Enc) touch(h Heap) {
@@ -274,14 +277,57 @@ func (e *Enc) havocVal(v ssa.Value) string {
 
 func (e *Enc) cur() *State { return e.out[e.curBlock] }
 
+// constGlobal returns the symbol of a package-level variable that is never written
+// after package initialisation (errors created by errors.New, lookup tables ...).
+func (e *Enc) constGlobal(name string, t types.Type) (string, bool) {
+	if e.ctx.mutableGlobals[name] {
+		return "", false
+	}
+	sym := q("glob$" + shortPath(name))
+	if !e.declSeen[sym] {
+		e.declSeen[sym] = true
+		so := e.sorts().SortOf(t)
+		e.decls = append(e.decls, fmt.Sprintf("(declare-const %s %s)", sym, qs(so)))
+		if isErrorType(t) {
+			// sentinel errors: non-nil, pairwise distinct
+			e.decls = append(e.decls, fmt.Sprintf("(assert (not (= %s 0)))", sym))
+			for _, other := range e.constErrs {
+				e.decls = append(e.decls, fmt.Sprintf("(assert (not (= %s %s)))", sym, other))
+			}
+			e.constErrs = append(e.constErrs, sym)
+		}
+		if !isErrorType(t) && so == "Int" && e.ctx.initNonNil[name] {
+			switch t.Underlying().(type) {
+			case *types.Interface, *types.Pointer, *types.Map, *types.Signature:
+				// initialised once by a call / literal and never reassigned: assumed non-nil
+				e.decls = append(e.decls, fmt.Sprintf("(assert (and (> %s 0) (<= %s 100000)))", sym, sym))
+				e.assumedGlobals = append(e.assumedGlobals, name)
+			}
+		}
+		if so == "Slice" {
+			e.decls = append(e.decls, fmt.Sprintf("(assert (and (>= (s.arr %s) 0) (<= (s.arr %s) 100000) (>= (s.off %s) 0) (>= (s.len %s) 0) (>= (s.cap %s) (s.len %s))))", sym, sym, sym, sym, sym, sym))
+		}
+	}
+	return sym, true
+}
+
+func shortPath(name string) string {
+	return strings.TrimPrefix(name, "helm.sh/helm/v4/")
+}
+
 // typeFacts emits the representation invariants of a value of Go type t.
 func (e *Enc) typeFacts(term string, t types.Type, st *State) {
+	e.typeFactsB(term, t, st.get(allocHeap))
+}
+
+// typeFactsB: representation invariants of a value; references are bounded by `bound`.
+func (e *Enc) typeFactsB(term string, t types.Type, bound string) {
 	switch u := t.Underlying().(type) {
 	case *types.Slice:
 		e.fact(fmt.Sprintf("(and (>= (s.arr %s) 0) (<= (s.arr %s) %s) (>= (s.off %s) 0) (>= (s.len %s) 0) (>= (s.cap %s) (s.len %s)) (=> (= (s.arr %s) 0) (= (s.cap %s) 0)))",
-			term, term, st.get(allocHeap), term, term, term, term, term, term))
+			term, term, bound, term, term, term, term, term, term))
 	case *types.Pointer, *types.Map, *types.Chan:
-		e.fact(fmt.Sprintf("(and (>= %s 0) (<= %s %s))", term, term, st.get(allocHeap)))
+		e.fact(fmt.Sprintf("(and (>= %s 0) (<= %s %s))", term, term, bound))
 	case *types.Basic:
 		if u.Info()&types.IsUnsigned != 0 {
 			e.fact("(>= " + term + " 0)")
@@ -473,11 +519,12 @@ func (e *Enc) run() (err error) {
 	e.decls = nil
 	e.obligs = nil
 	e.nfresh = 0
+	e.nquant = 0
 	e.retOrd = 0
 	e.warnings = nil
 	e.deferred = nil
 
-	e.entry = &State{m: map[string]string{}, enc: e}
+	e.entry = &State{m: map[string]string{}, b: map[string]string{}, enc: e}
 	e.touch(allocHeap)
 	e.findLoops()
 
@@ -498,9 +545,10 @@ func (e *Enc) run() (err error) {
 		t := e.declare("fv$"+fv.Name(), "Int")
 		e.vals[fv] = t
 		e.typeFactsAt(t, fv.Type(), e.entry)
-		// a free variable is a pointer to the captured variable: expose the variable by name
-		if pt, ok := fv.Type().Underlying().(*types.Pointer); ok {
-			_ = pt
+		// a free variable is a pointer to the captured variable: contracts refer to the
+		// captured variable by name, meaning its value when the closure is entered
+		if pl := e.placeOf(fv); pl != nil && pl.kind == 2 {
+			e.params[fv.Name()] = TV{Term: e.loadPlace(pl, e.entry), Sort: e.sorts().SortOf(pl.T), T: pl.T}
 		}
 	}
 	// requires
@@ -660,7 +708,7 @@ func (e *Enc) mergeStates(b *ssa.BasicBlock, edges []edge) *State {
 	if len(edges) == 1 {
 		return edges[0].st.clone()
 	}
-	st := &State{m: map[string]string{}, enc: e}
+	st := &State{m: map[string]string{}, b: map[string]string{}, enc: e}
 	names := map[string]bool{}
 	for _, ed := range edges {
 		for k := range ed.st.m {
@@ -690,6 +738,29 @@ func (e *Enc) mergeStates(b *ssa.BasicBlock, edges []edge) *State {
 			term = "(ite " + edges[i].cond + " " + edges[i].st.get(h) + " " + term + ")"
 		}
 		st.m[k] = e.define(fmt.Sprintf("m$%d$%s", b.Index, k), h.Sort, term)
+	}
+	// write bounds: equal on all paths, or the merged allocation counter
+	st.b = map[string]string{}
+	bn := map[string]bool{}
+	for _, ed := range edges {
+		for k := range ed.st.b {
+			bn[k] = true
+		}
+	}
+	for k := range bn {
+		h := e.heapByName(k)
+		first := edges[0].st.boundOf(h)
+		same := true
+		for _, ed := range edges[1:] {
+			if ed.st.boundOf(h) != first {
+				same = false
+			}
+		}
+		if same {
+			st.b[k] = first
+		} else {
+			st.b[k] = st.get(allocHeap)
+		}
 	}
 	return st
 }
@@ -908,6 +979,22 @@ func (e *Enc) loopResolver(li *loopInfo, st *State, phiVal func(*ssa.Phi) string
 			}
 			return TV{}, false
 		}
+		if name == "#range" {
+			// the slice ranged over by a range-over-slice loop
+			for _, in := range li.head.Instrs {
+				lt, ok := in.(*ssa.BinOp)
+				if !ok || lt.Op != token.LSS {
+					continue
+				}
+				if call, ok := lt.Y.(*ssa.Call); ok {
+					if b, ok := call.Call.Value.(*ssa.Builtin); ok && b.Name() == "len" {
+						x := call.Call.Args[0]
+						return TV{Term: e.term(x), Sort: s.SortOf(x.Type()), T: x.Type()}, true
+					}
+				}
+			}
+			return TV{}, false
+		}
 		if name == "#done" {
 			if li.rangeV == nil {
 				return TV{}, false
@@ -1096,7 +1183,7 @@ func (e *Enc) encodeInstr(in ssa.Instruction, st *State) {
 		case *types.Slice:
 			x := e.term(in.X)
 			e.safety("index", in.X.Name(), fmt.Sprintf("(and (>= %s 0) (< %s (s.len %s)))", idx, idx, x), in.Pos())
-			e.places[in] = &Place{kind: 3, heap: s.ElemHeap(u.Elem()), ref: "(s.arr " + x + ")", idx: "(+ (s.off " + x + ") " + idx + ")", T: u.Elem()}
+			e.places[in] = &Place{kind: 3, heap: s.ElemHeap(u.Elem()), ref: "(s.arr " + x + ")", idx: "(at (s.off " + x + ") " + idx + ")", T: u.Elem()}
 		case *types.Pointer:
 			a := u.Elem().Underlying().(*types.Array)
 			if _, isPlace := e.places[in.X]; isPlace {
@@ -1296,6 +1383,12 @@ func (e *Enc) encodeUnOp(in *ssa.UnOp, st *State) {
 	s := e.sorts()
 	switch in.Op {
 	case token.MUL: // load
+		if g, ok := in.X.(*ssa.Global); ok {
+			if t, ok := e.constGlobal(g.String(), g.Type().Underlying().(*types.Pointer).Elem()); ok {
+				e.vals[in] = t
+				return
+			}
+		}
 		pl := e.placeOf(in.X)
 		if pl == nil {
 			e.havocVal(in)
@@ -1309,7 +1402,9 @@ func (e *Enc) encodeUnOp(in *ssa.UnOp, st *State) {
 			}
 		}
 		e.setVal(in, s.SortOf(in.Type()), e.loadPlace(pl, st))
-		e.typeFacts(e.vals[in], in.Type(), st)
+		if pl.kind != 0 {
+			e.typeFactsB(e.vals[in], in.Type(), st.boundOf(pl.heap))
+		}
 	case token.NOT:
 		e.setVal(in, "Bool", "(not "+e.term(in.X)+")")
 	case token.SUB:
@@ -1466,11 +1561,11 @@ func (e *Enc) encodeLookup(in *ssa.Lookup, st *State) {
 			v := e.define("v$"+in.Name()+"$0", s.SortOf(u.Elem()), val)
 			ok := e.define("v$"+in.Name()+"$1", "Bool", present)
 			e.tuples[in] = []string{v, ok}
-			e.typeFacts(v, u.Elem(), st)
+			e.typeFactsB(v, u.Elem(), st.boundOf(hv))
 			return
 		}
 		e.setVal(in, s.SortOf(u.Elem()), val)
-		e.typeFacts(e.vals[in], u.Elem(), st)
+		e.typeFactsB(e.vals[in], u.Elem(), st.boundOf(hv))
 	default:
 		// string index
 		x, idx := e.term(in.X), e.term(in.Index)
@@ -1597,13 +1692,13 @@ func (e *Enc) encodeReturn(in *ssa.Return, st *State) {
 	}
 	res := e.resultVars(in)
 	for i, cl := range e.fc.Ensures {
-		c := e.evalCtx(st, e.entry, mergeVars(e.params, res), func(name string) (TV, bool) { return TV{}, false }, fmt.Sprintf("%s ensures#%d", e.key, i+1))
+		c := e.evalCtx(st, e.entry, mergeVars(res, e.params), func(name string) (TV, bool) { return TV{}, false }, fmt.Sprintf("%s ensures#%d", e.key, i+1))
 		goal := c.boolTerm(cl.E)
 		label := cl.Label
 		if label == "" {
 			label = fmt.Sprint(i + 1)
 		}
-		e.oblig("post", fmt.Sprintf("post[%s]@return#%d", label, e.retOrd), goal, cl.Src, cl)
+		e.oblig("post", fmt.Sprintf("post[%s]@return#%d", label, e.retOrd), goal, cl.Src+"   [at the return in "+posOf(e.fn, in.Pos())+"]", cl)
 	}
 	if e.fc.HasMod {
 		// declared frame: every relevant heap outside `modifies` is unchanged
